@@ -328,6 +328,75 @@ def sibling_grammar(rng, lang, gram, stats):
     return {"kind": gram["kind"], "text": "\n".join(out)}
 
 
+def gen_multipublic(rng, stats):
+    """a JSGF text with 2–3 PUBLIC rules whose languages are pairwise disjoint (they differ in one word position of the
+    sentence of goforward.raw, acoustically close alternatives), so that activating the wrong rule is observable;
+    returns (grammar, list of qualified rule names)"""
+    gname = rng.choice(["g", "turtle", "cmd"])
+    j = rng.below(len(SENT_EN))
+    alts = [SENT_EN[j]] + OTHER_EN[SENT_EN[j]]
+    if SENT_EN[j] == "meters":
+        alts = ["meters", "meter", "centimeters"]
+    rng.shuffle(alts)
+    k = rng.range(2, 3)
+    names = [f"r{i}" for i in range(k)]
+    lines = ["#JSGF V1.0;", f"grammar {gname};"]
+    pre = "[ " + pick_word(rng, "en-us") + " ] " if rng.chance(0.2) else ""
+    for nme, w in zip(names, alts):
+        words = list(SENT_EN)
+        words[j] = w
+        lines.append(f"public <{nme}> = {pre}{' '.join(words)};")
+    if rng.chance(0.3):
+        lines.append("<helper> = stop | halt;")
+    stats["features"]["multipublic"] = stats["features"].get("multipublic", 0) + 1
+    return {"kind": "jsgf", "text": "\n".join(lines) + "\n"}, [f"{gname}.{n}" for n in names]
+
+
+def gen_install_case(rng, stats):
+    """the grammar-installation dimension on ONE decoder: route ∈ {decoder_set_jsgf_string, decoder_set_jsgf_file,
+    jsgf= / fsg= of the configuration at decoder_init, FSG object} × toprule ∈ {unset, each public rule by its
+    qualified name, a bare rule name and a missing rule (both must be refused)}; every result is judged against the
+    rule the configuration names, built from the JSGF text by the Lean model"""
+    cfg = {}
+    if rng.chance(0.3):
+        cfg["lw"] = rng.choice(["1.0", "10"])
+    stats.setdefault("model", {})
+    stats["model"]["en-us"] = stats["model"].get("en-us", 0) + 1
+    gram, rules = gen_multipublic(rng, stats)
+    units = []
+    n_units = rng.range(3, 5)
+    for ui in range(n_units):
+        if ui > 0 and rng.chance(0.25):
+            gram, rules = gen_multipublic(rng, stats)
+        top = rng.weighted([("unset", 2), ("rule", 7), ("bare", 1), ("missing", 1)])
+        if top == "rule":
+            t = rng.choice(rules)
+        elif top == "bare":
+            t = rng.choice(rules).split(".")[1]
+        elif top == "missing":
+            t = rules[0].split(".")[0] + ".nosuch"
+        else:
+            t = None
+        route = rng.weighted([("string", 5), ("file", 3), ("config", 3 if ui == 0 else 0)])
+        key = f"install_{route}_toprule_{top}"
+        stats["features"][key] = stats["features"].get(key, 0) + 1
+        nn = rng.choice([44580, 44580, rng.range(30000, 44580)])
+        audio = [{"src": "goforward.raw", "a": 0, "b": nn}]
+        stats["audio"]["install"] = stats["audio"].get("install", 0) + 1
+        utts = [{"audio": audio, "plan": gen_plan(rng, nn, stats)}]
+        units.append({"grammar": gram, "utts": utts, "install": route, "toprule": t})
+    if rng.chance(0.4):      # an FSG file as well: through the configuration (first unit) or as an object, toprule still set
+        g = {"kind": "fsg", "text": (DATA / rng.choice(["goforward.fsg", "goforward2.fsg"])).read_text()}
+        u = {"grammar": g, "utts": [{"audio": [{"src": "goforward.raw"}], "plan": gen_plan(rng, 44580, stats)}]}
+        if rng.chance(0.5):
+            u["install"] = "config"
+            units.insert(0, u)
+            stats["features"]["install_config_fsg"] = stats["features"].get("install_config_fsg", 0) + 1
+        else:
+            units.append(u)
+    return {"config": cfg, "lang": "en-us", "units": units}
+
+
 def gen_grammar(rng, lang, stats):
     kind = rng.weighted([("jsgf", 6), ("fsg", 3), ("align", 2)])
     stats["grammar"][kind] = stats["grammar"].get(kind, 0) + 1
@@ -444,8 +513,22 @@ def gen_plan(rng, nsamp, stats, stream=False):
         chunks = [(0, 0, 0)]
     ndump = rng.weighted([(0, 2), (1, 4), (2, 3), (3, 1)])
     marks = set(rng.below(max(1, len(chunks))) for _ in range(ndump))
+    # result accessors between processing calls (decoder_alignment re-runs a state-alignment pass over the frames
+    # searched so far and must put the acoustic-model counters back; JSON / lattice / hyp / seg only read)
+    npoll = rng.weighted([(0, 5), (1, 3), (2, 2), (4, 1)])
+    polls = {}
+    for _ in range(npoll):
+        polls.setdefault(rng.below(max(1, len(chunks))), []).append(
+            rng.weighted([("align", 5), ("json0", 2), ("json1", 2), ("json2", 1), ("lattice", 1), ("hyp", 1), ("seg", 1)]))
+    if npoll:
+        stats["chunking"]["with_mid_utterance_polls"] = stats["chunking"].get("with_mid_utterance_polls", 0) + 1
     for i, (c, ns, fu) in enumerate(chunks):
         ops.append(["proc", c, ns, fu, f32])
+        if i != len(chunks) - 1:
+            for what in polls.get(i, []):
+                ops.append(["poll", what])
+                stats["polls"] = stats.get("polls", {})
+                stats["polls"]["mid_" + what] = stats["polls"].get("mid_" + what, 0) + 1
         if i in marks and i != len(chunks) - 1:
             ops.append(["dump", f"mid{i}"])
     # a query right before decoder_end_utt: in full-utterance mode (and whenever the last call leaves nothing
@@ -453,6 +536,11 @@ def gen_plan(rng, nsamp, stats, stream=False):
     if chunks and (style == "full" or rng.chance(0.45)):
         ops.append(["dump", "preend"])
     ops.append("end")
+    if rng.chance(0.2):
+        what = rng.choice(["align", "json1", "json0", "lattice"])
+        ops.append(["poll", what])
+        stats["polls"] = stats.get("polls", {})
+        stats["polls"]["final_" + what] = stats["polls"].get("final_" + what, 0) + 1
     ops.append(["dump", "fin"])
     if rng.chance(0.2):
         ops.append(["dump", "fin2"])      # asking twice must not change the answer
@@ -491,6 +579,8 @@ def gen_case(rng, stats, thorough):
                     t["audio"] = [{"src": "goforward.raw", "a": 0, "b": nn}]
                     t["plan"] = gen_plan(rng, nn, stats, stream=True)
         units.append({"grammar": gram, "utts": utts})
+        if gram["kind"] == "jsgf" and rng.chance(0.25):
+            units[-1]["install"] = "file"          # decoder_set_jsgf_file instead of decoder_set_jsgf_string
         if rng.chance(0.12):
             units[-1]["prestart"] = True      # ask for a result before the first decoder_start_utt
     case = {"config": cfg, "lang": lang, "units": units}
@@ -899,7 +989,8 @@ def run_driver(text):
 
 
 DIED_ASSERT = "Assertion `norm != WORST_SCORE' failed"
-RERUN_SIGNATURES = [("assert_norm_worst_score_search_died", DIED_ASSERT),
+RERUN_SIGNATURES = [("assert_fsgs_frame_eq_frame_idx (frame accounting broken: judged on the plain flavour)", "fsgs->frame == frame_idx"),
+                    ("assert_norm_worst_score_search_died", DIED_ASSERT),
                     ("ubsan_nan_features_D15", "nan is outside the range of representable values")]
 _ndebug = []
 
@@ -1073,6 +1164,12 @@ def run_case(binp, case, scratch, tag, nfoff):
             if fr != tot or nfr != fr + nfoff:
                 res["p3"].append(("frame counts returned by the processing calls do not add up to the frames searched",
                                   True, {"sum_of_returns": tot, "fsgs_frame": fr, "n_frames": nfr}))
+                started = False
+        elif name == "poll" and started:
+            what, nfr, fr = rep[1], int(rep[3]), int(rep[4])
+            if fr != tot or nfr != fr + nfoff:
+                res["p3"].append(("a result accessor called between processing calls changed the frame counters", True,
+                                  {"call": what, "sum_of_returns": tot, "fsgs_frame": fr, "n_frames": nfr}))
                 started = False
         elif name == "end" and started:
             rv, inend, nfr, ref = int(rep[1]), int(rep[2]), int(rep[3]), int(rep[4])
@@ -1291,6 +1388,11 @@ def judge_step_output(hout, dout):
         T, nent = ends.get(b["tag"], (None, None))
         info = {"tag": b["tag"], "frames": T, "entries": nent, "pnodes": int(b.get("lt", [0, 0, 0])[2]) if len(b.get("lt", [])) > 2 else 0,
                 "cov": b["cov"]}
+        lh = b.get("lexhyps")
+        if lh is not None and len(lh) >= 6:
+            # lexHypsB, null arcs carry wid -1 (fsgOf M = g), the eight clauses, word arcs, word-internal (ssid, tmat) pairs, detail
+            info["lexhyps"] = {"ok": lh[0] == "1" and lh[1] == "1", "clauses": lh[2], "word_arcs": int(lh[3]), "int_pairs": int(lh[4]),
+                               "detail": " ".join(lh[5:])[:600]}
         infos.append(info)
         for st in b["steps"]:
             # frame stepRelB searchInvB indices quiet evalExact size active
@@ -1435,6 +1537,7 @@ def search_step_tie(c, thorough, replay_case=None):
     agg = {"cases": len(cases), "utterances": 0, "frames": 0, "entries": 0, "pnodes_max": 0, "grammar_rejected_or_crashed": 0,
            "reruns_on_plain_flavour": 0, "dump_bytes": 0}
     covsum, shapes, beams, audio_kinds = {}, {}, {}, {}
+    lex = {"cases": 0, "true": 0, "false": 0, "no_verdict": 0, "word_arcs": 0, "word_internal_ssid_tmat_pairs": 0, "by_model": {}, "failures": []}
     ok_all, ok_crash = True, True
     reported = 0
     for tag, cs in cases:
@@ -1456,6 +1559,21 @@ def search_step_tie(c, thorough, replay_case=None):
                              "how_to_rerun": "python3 tools/check.py C01 --replay <this file>"}, False, tag="stepcrash")
             continue
         for inf in r["infos"]:
+            lh = inf.get("lexhyps")
+            model = Path(cs["config"].get("hmm", "en-us")).name
+            if lh is None:
+                lex["no_verdict"] += 1
+            else:
+                lex["cases"] += 1
+                lex["by_model"][model] = lex["by_model"].get(model, 0) + 1
+                lex["word_arcs"] += lh["word_arcs"]
+                lex["word_internal_ssid_tmat_pairs"] += lh["int_pairs"]
+                if lh["ok"]:
+                    lex["true"] += 1
+                else:
+                    lex["false"] += 1
+                    if len(lex["failures"]) < 6:
+                        lex["failures"].append({"case": tag, "utt": inf["tag"], "model": model, "clauses": lh["clauses"], "detail": lh["detail"]})
             agg["utterances"] += 1
             agg["frames"] += inf["frames"] or 0
             agg["entries"] += inf["entries"] or 0
@@ -1485,12 +1603,26 @@ def search_step_tie(c, thorough, replay_case=None):
              "ci_ext, ssid, tmatid, ppos, context set, logs2prob, root[s]), LexTreeOK holds on it, the state before "
              "fsg_search_start is all-cleared, startRelB holds for start, stepRelB for EVERY frame, searchInvB on every state, "
              "evalHist3 reproduces every evaluated HMM, finish = the model's finish, accumulated table = final table", ok_all)
-    c.oblige("growth stage (M10): every stepped decode ran to completion (no sanitizer report, assert, exit, timeout)", ok_crash)
+    c.oblige("lex-hyps-hold (C02 lextree = flat network, Props/C02Lex.lean): on every stepped decode lexHypsB M li = true, where li = the "
+             "dict2pid tables / pronunciations / penalties the REAL lextree construction read (the same dump buildLexTree is compared "
+             "node by node with the real lextree on) and M = the flat model of C02 built from the same search FSG and the DIRECT "
+             "model-definition lookups (bin_mdef_phone_id_nearest + pid2ssid) for the same triphones; every null arc carries wid -1 "
+             "(fsgOf M = the dumped FSG).  By C02_lex_hyps_checked this gives Agree, LookAgree, SsidTmat (for the constructed tmOf) and "
+             "hall, so C02_lextree_paths_eq_flat_instances_checked applies to the lextree the code built",
+             lex["false"] == 0 and lex["no_verdict"] == 0 and lex["cases"] > 0, lex["failures"][:2] if lex["failures"] else "")
+    if lex["failures"]:
+        c.violation({"kind": "a hypothesis of the lextree = flat-network theorems (Props/C02Lex.lean) is false on a real case",
+                     "failures": lex["failures"],
+                     "clauses": "sil equal, sil<nCi, wip/pip/shift, arcWordP on every arc (pron, fsgFiller, nonempty, CI phones, dictFiller, "
+                                "ciTmat, ciSsid, single, begin, internal, final), states<nState, null arcs closed, instsOfArc defined, "
+                                "word-internal (ssid,tmat) consistent",
+                     "how_to_rerun": "python3 tools/check.py C01 --seed <seed>"}, False, tag="lexhyps")
     never = [k for k in ("exits", "nulls", "startNulls", "dropped", "newly", "reentered", "self0", "fromParent", "fromEntry", "outKept",
                          "outFrom", "innerSelf", "innerPrev", "deadStates", "evalExact") if not covsum.get(k)]
     return {"search_step_tie": dict(agg, wall_s=round(time.time() - t0, 1), grammar_shapes=shapes, beam_settings=beams,
                                     audio_kinds=audio_kinds, generated_grammar_features=feats,
-                                    clauses_of_the_relation_exercised=covsum, clauses_never_exercised=never)}
+                                    clauses_of_the_relation_exercised=covsum, clauses_never_exercised=never,
+                                    lex_hyps={k: v for k, v in lex.items() if k != "failures"})}
 
 
 # ---------------------------------------------------------------------------------------------
@@ -1575,6 +1707,8 @@ def run_check(c, prop):
     target_decodes = 60 if not thorough else 3000
     for k in range(1 if not thorough else 25):      # 0–5-frame utterances in every run
         cases.append((f"small{k}", gen_small_case(c.rng, stats)))
+    for k in range(2 if not thorough else 40):      # installation route × toprule in every run
+        cases.append((f"inst{k}", gen_install_case(c.rng, stats)))
     ndec = 0
     while ndec < target_decodes:
         cs = gen_case(c.rng, stats, thorough)
@@ -1596,6 +1730,7 @@ def run_check(c, prop):
     reruns = {}
     distinct = set()
     small_final = {}
+    jsgf_oracle = {}
     branches = {}
     all_ok = {"corr": True, "wf": True, "oracle": True, "crash": True}
     reported = 0
@@ -1617,6 +1752,9 @@ def run_check(c, prop):
             agg["entries_total"] += inf["entries"]
             agg["null_segments"] += inf["nullsegs"]
             agg["leading_null"] += 1 if inf["leading_null"] else 0
+            jo = inf.get("jsgf_text_oracle")
+            if jo:
+                jsgf_oracle[jo] = jsgf_oracle.get(jo, 0) + 1
             for b in inf.get("branches", []):
                 if b:
                     branches[b] = branches.get(b, 0) + 1
@@ -1698,10 +1836,11 @@ def run_check(c, prop):
                           "(hypothesis or at least one segment); distinct by (case, dump point, hypothesis)",
                   "cases": len(cases), "corpus_cases": ncorp, "decoder_n_frames_offset_in_source": nfoff, **agg,
                   "reruns_on_plain_flavour_by_reason (library stopped under asserts/UBSan for a reason owned by C09/C18)": reruns,
+                  "dumps_judged_by_the_JSGF_text_oracle (Lean model of C05, configured rule)": jsgf_oracle,
                   "final_results_by_frames_searched_0_to_5": {str(k): small_final.get(k, 0) for k in range(6)},
                   "findExit_branches_hit (dumps)": branches,
                   "findExit_branches_never_hit": [b for b in ALL_BRANCHES if b not in branches],
-                  "acoustic_models": stats.get("model", {}), "audio_kinds": stats["audio"], "grammar_kinds": stats["grammar"], "grammar_features": stats["features"],
+                  "acoustic_models": stats.get("model", {}), "polling_calls": stats.get("polls", {}), "audio_kinds": stats["audio"], "grammar_kinds": stats["grammar"], "grammar_features": stats["features"],
                   "beam_settings": stats["beam"], "rate_settings": stats["rates"], "chunking_styles": stats["chunking"], **step_cov})
 
 
